@@ -180,8 +180,12 @@ def gated(ck, label, cases, tables, random_n, shards, retry=0):
         for run, r in sorted(results.items()):
             c, lines = tl[run], logs[run]
             go_ok = (not r["crashed"]) and not r.get("hang") and not r.get("close_err") and r["verdict"]["ok"]
-            if go_ok != c["persisted"] and not (c["persisted"] and r["verdict"]["symptom"] in ("field_changed", "reader_panic", "read_error")):
-                raise core.Broken("%s run %s: harness verdict %s but TLC (RecorderAbs on the real rows) says persisted=%s" % (label, run, r["verdict"], c["persisted"]))
+            # two judges of the same rows: TLC evaluates the statement (RecorderAbs) on ids and location ids, the harness compares every field
+            # and inspects the location dictionary. Rows TLC rejects are a violation whatever the harness thinks; rows the harness rejects
+            # for a reason TLC can see as well (missing, duplicated, foreign) but TLC accepts mean one of the two judges is broken.
+            tlc_only = go_ok and not c["persisted"]
+            if c["persisted"] and not go_ok and r["verdict"]["symptom"] in ("missing", "duplicated", "foreign_row"):
+                raise core.Broken("%s run %s: harness verdict %s but TLC (RecorderAbs on the real rows) says persisted" % (label, run, r["verdict"]))
             ck.cov["traces_validated_against_impl"] += 1
             stats["runs"] += 1
             stats["conforming"] += bool(c["conf"])
@@ -198,6 +202,8 @@ def gated(ck, label, cases, tables, random_n, shards, retry=0):
                 symptom = panic_class(r.get("panic_msg"))
             elif r.get("close_err"):
                 symptom = "close_error"
+            elif tlc_only:
+                symptom = "statement_refuted_on_the_stored_rows"
             elif go_ok:
                 symptom = "ok"
             elif r["verdict"]["symptom"] == "missing":
@@ -211,9 +217,9 @@ def gated(ck, label, cases, tables, random_n, shards, retry=0):
                 continue
             key = {"mode": "gated", "model": "conforms" if c["conf"] else "diverged", "symptom": symptom,
                    "schedule": schedule_class(lines, r["verdict"].get("missing") or [], r["crashed"], r.get("panic_proc"))}
-            desc = ("%s: gated run %s (batch size %s) on the real recorder: %s — %d inserted, missing ids %s, duplicated %s, changed %s, panic %r; "
+            desc = ("%s: gated run %s (batch size %s) on the real recorder: %s — %d inserted, missing ids %s, duplicated %s, changed %s, location dictionary: %s, panic %r; "
                     "schedule: %s" % (label, r["name"], r["batch"], symptom, r["verdict"].get("inserted", 0), r["verdict"].get("missing"),
-                                      r["verdict"].get("duplicated"), r["verdict"].get("changed"), r.get("panic_msg"),
+                                      r["verdict"].get("duplicated"), r["verdict"].get("changed"), r["verdict"].get("loc_problem"), r.get("panic_msg"),
                                       " ".join("%s:%s" % (m["p"], m["l"] + (("(" + str(m["id"]) + ")") if m["l"] == "ins" else "")) for m in lines if m["e"] == "step")))
             if ck.report(key, desc, {"key": key, "result": r, "tlc": c, "log": lines, "tables": tables}) == "known":
                 stats["known"] += 1
@@ -244,6 +250,7 @@ def values(ck, rounds, n):
                 symptom = r["verdict"]["symptom"]
             stats[r["class"] + ":" + symptom] += 1
             stats["tables_created_late"] += bool(r.get("late_tables"))
+            stats["empty_location_first"] += bool(r.get("empty_location_first"))
             if symptom == "ok":
                 if len(ck.cov["samples"]) < 5 and r["shape"] == "wide":
                     ck.sample({"round_trip": {"shape": r["shape"], "batch": r["batch"], "flush_pattern": r["pattern"], "entries": r["entries"], "first": r["sample"]}})
@@ -277,8 +284,9 @@ def free(ck, label, runs, race=False, single_every=0, budget=0, max_per=60, tlc_
             c = tl.get(r["run"])
             if c is not None:
                 stats["judged_by_tlc"] += 1
-                if go_ok != c["persisted"] and not (c["persisted"] and r["verdict"]["symptom"] in ("field_changed", "location_changed", "reader_panic", "read_error")):
-                    raise core.Broken("%s run %s: harness verdict %s but TLC says persisted=%s" % (label, r["run"], r["verdict"], c["persisted"]))
+                if c["persisted"] and not go_ok and r["verdict"]["symptom"] in ("missing", "duplicated", "foreign_row"):
+                    raise core.Broken("%s run %s: harness verdict %s but TLC (RecorderAbs on the real rows) says persisted" % (label, r["run"], r["verdict"]))
+            tlc_only = c is not None and go_ok and not c["persisted"]
             stats["runs"] += 1
             ck.cov["traces_validated_against_impl"] += 1
             ck.cov["evaluations"] += r["entries"]
@@ -286,8 +294,11 @@ def free(ck, label, runs, race=False, single_every=0, budget=0, max_per=60, tlc_
             ck.cov["distinct_nontrivial"] += nontriv
             stats["overlapping" if r["overlap"] else "not_overlapping"] += 1
             stats["tables_created_in_mid_run"] += bool(r.get("late_tables"))
+            stats["empty_location_first"] += bool(r.get("empty_location_first"))
             if r["crashed"]:
                 symptom = panic_class(r["panic_msg"])
+            elif tlc_only:
+                symptom = "statement_refuted_on_the_stored_rows"
             elif go_ok:
                 symptom = "ok"
             elif r["verdict"]["symptom"] == "missing":
@@ -335,6 +346,8 @@ def run(ck):
         "a panic inside the recorder counts as not persisting (a real program dies); the harness recovers it only to keep going",
         "gated runs: a goroutine let through a gate runs until it is parked again, finished, or waiting for the recorder's mutex (seen in its scheduler wait reason); a waiter takes the freed mutex before anybody else is let through",
         "free runs use the connection pool as is, busy timeout shortened to 150 ms (only consulted if two goroutines write at once, i.e. after a regression)",
+        "location strings include the empty string: first in the very first flush and later again; the location dictionary is read directly from the SQLite file "
+        "(every id used by a row exists exactly once, every string has one id, ids start at 1), not only through the DataReader",
         "NaN is not generated: SQLite stores NaN as NULL, no SQLite-backed recorder can return it; +-Inf, -0, subnormals are generated",
         "table and field names are not SQL keywords; entries carry unique IDs so that 'exactly once' is decidable per entry",
         "tables are created by CreateTable before the goroutines start or, for the later ones, by one inserter in mid-run; nobody inserts into a table before its CreateTable has returned, and no table is created twice",
